@@ -145,6 +145,8 @@ type ClientCfg struct {
 	Header    http.Header
 	AcceptEnc string
 	WSCompress bool
+	// CandidateRev, if non-zero, is the EIO value used when opening an upgrade candidate.
+	CandidateRev int
 	// OmitEIO leaves the EIO parameter out (the server then assumes revision 3).
 	OmitEIO bool
 	// ProbeAtOnce: send the upgrade probe immediately after the candidate is open (it may
@@ -211,7 +213,11 @@ func (c *Client) path() string {
 }
 
 func (c *Client) query(withSid bool, transport string) string {
-	q := "EIO=" + strconv.Itoa(c.Cfg.Rev) + "&transport=" + transport
+	rev := c.Cfg.Rev
+	if withSid && transport != "polling" && c.Cfg.CandidateRev != 0 {
+		rev = c.Cfg.CandidateRev
+	}
+	q := "EIO=" + strconv.Itoa(rev) + "&transport=" + transport
 	if c.Cfg.OmitEIO {
 		q = "transport=" + transport
 	}
